@@ -383,7 +383,7 @@ def accesses(rec, M, hid, gen, mngr, S, Mm, A, wit, layout_diff):
         except Exception as exc:
             cls = ""
             if isinstance(exc, RuntimeError) and "Missing reduction rule" in str(exc) and \
-                    "[0]" in ch.segments[-1]["designator"]:
+                    any("[0]" in seg["designator"] for seg in ch.segments):
                 # no access at all is found for a read that goes through element 0 of an array
                 # of aggregates/arrays (its address is also the array's and the container's)
                 cls = " [Missing reduction rule, through element 0 of an array]"
